@@ -1120,6 +1120,213 @@ theorem C01_synsets_after_insert (db db' : Db) (l : Lexicon) (c : Ctx) (h : inse
           simp only [hc, Bool.false_eq_true, if_false] at e6
           exact e6
 
+/-! ### end to end: `synsets()` after `add` = the document's synsets -/
+
+/-- the rows of `_insert_synsets`, in document order, with their ILI already resolved through the
+`ilis` table of the resulting store -/
+theorem insertSynsets_rows (db db' : Db) (l : Lexicon) (c : Ctx) (h : insertSynsets db l c = .ok db')
+    (hn : (db.ilis.map (·.rowid)).Nodup) :
+    ∃ rows, db'.synsets = db.synsets ++ rows ∧
+      Forall2 (fun ss r => r.id = ss.id ∧ r.lex = c.lexid ∧ (∃ p, ss.pos = some p ∧ r.pos = p) ∧
+        iliIdOf db' r.ili = (if (ss.ili != "" && ss.ili != "in") then some ss.ili else none)) (localSynsets l) rows := by
+  unfold insertSynsets at h
+  cases hp : need "ili status" (lookupId db.ilistatuses "presupposed") with
+  | error e => simp [hp, bind, Except.bind] at h
+  | ok presup =>
+    simp only [hp, bind, Except.bind] at h
+    cases h1 : (localSynsets l).foldlM (presupStep presup) db with
+    | error e => simp [h1] at h
+    | ok db1 =>
+      simp only [h1] at h
+      cases h2 : (localSynsets l).foldlM (synsetStep c) db1 with
+      | error e => simp [h2] at h
+      | ok db2 =>
+        simp only [h2] at h
+        obtain ⟨hsyn, hili⟩ := pili_fold_frame c _ db2 db' h
+        obtain ⟨rows, hdb2, hrows⟩ := C01_synset_rows c _ db1 db2 h2
+        have hili2 : db2.ilis = db1.ilis := by rw [hdb2]
+        obtain ⟨⟨ex, hex⟩, hpres⟩ := C01_presupposed_ilis presup _ db db1 h1
+        have hsyn1 : db1.synsets = db.synsets := by rw [hex]
+        have hnd1 := presup_fold_nodup presup _ db db1 h1 hn
+        refine ⟨rows, by rw [hsyn, hdb2]; simp [hsyn1], ?_⟩
+        apply Forall2.of_index _ _ hrows.length_eq
+        intro i h1' h2'
+        obtain ⟨e1, e2, _, _, e5, e6⟩ := hrows.get i h1' h2'
+        refine ⟨e1, e2, e5, ?_⟩
+        have hs : (localSynsets l)[i] ∈ localSynsets l := List.getElem_mem h1'
+        by_cases hc : ((localSynsets l)[i].ili != "" && (localSynsets l)[i].ili != "in") = true
+        · simp only [hc, if_true] at e6 ⊢
+          obtain ⟨x, hx, hxi⟩ := hpres _ hs hc
+          cases hf : db1.ilis.find? (fun x => x.id == (localSynsets l)[i].ili) with
+          | none =>
+            rw [List.find?_eq_none] at hf
+            have := hf x hx
+            simp [hxi] at this
+          | some y =>
+            have hy := List.mem_of_find?_eq_some hf
+            have hyi : y.id = (localSynsets l)[i].ili := by simpa using List.find?_some hf
+            rw [hf] at e6
+            simp only [Option.map_some] at e6
+            unfold iliIdOf
+            rw [e6, hili, hili2]
+            simp only
+            rw [find_rowid_of_nodup db1.ilis hnd1 y hy]
+            simp [hyi]
+        · have hc' : ((localSynsets l)[i].ili != "" && (localSynsets l)[i].ili != "in") = false := by simpa using hc
+          simp only [hc', Bool.false_eq_true, if_false] at e6 ⊢
+          rw [e6]; rfl
+
+/-- the content of one synset of the document as `synsets()` reports it: id, part of speech and the
+ILI id (none for "" and for a proposed ILI "in") -/
+def docSynset (ss : Synset) : String × String × Option String :=
+  (ss.id, ss.pos.getD "", if (ss.ili != "" && ss.ili != "in") then some ss.ili else none)
+
+/-- **C01, synsets slice, end to end**: after a successful `add` of any lexicon (plain or extension),
+`synsets()` restricted to the new lexicon reports exactly the document's non-external synsets, in
+document order, each with its id, part of speech and ILI id — for documents of any size, on any
+store whose synset rows point at existing lexicon rows and whose ILI rowids are unique. -/
+theorem C01_synsets_end_to_end (norm : String → String) (dr : Nat) (db db' : Db) (l : Lexicon)
+    (h : addLexicon norm dr db l = .ok db')
+    (hfkY : ∀ o ∈ db.synsets, o.lex ∈ db.lexicons.map (·.rowid)) (hn : (db.ilis.map (·.rowid)).Nodup) :
+    (findSynsets db' none [] none none [nextId (db.lexicons.map (·.rowid))] false true).map (fun y => (y.id, y.pos, y.ili)) =
+      (localSynsets l).map docSynset := by
+  unfold addLexicon at h
+  simp only [bind, Except.bind] at h
+  cases h0 : collectFrames l with
+  | error x => rw [h0] at h; simp at h
+  | ok sbs =>
+    rw [h0] at h
+    simp only at h
+    cases h1 : insertLexicon (updateLookups db l) l with
+    | error x => rw [h1] at h; simp at h
+    | ok t =>
+      obtain ⟨d1, lexid, extid⟩ := t
+      rw [h1] at h
+      simp only at h
+      generalize hc : ({ lexid := lexid, extid := extid, extIds := externalIds l } : Ctx) = c at h
+      have hlex : c.lexid = lexid := by rw [← hc]
+      cases h2 : insertSynsets d1 l c with
+      | error x => rw [h2] at h; simp at h
+      | ok d2 =>
+        rw [h2] at h
+        simp only at h
+        cases h3 : insertEntries d2 l c with
+        | error x => rw [h3] at h; simp at h
+        | ok d3 =>
+          rw [h3] at h
+          simp only at h
+          cases h4 : insertForms d3 norm l c with
+          | error x => rw [h4] at h; simp at h
+          | ok d4 =>
+            rw [h4] at h
+            simp only at h
+            cases h5 : insertPronsTags d4 l c with
+            | error x => rw [h5] at h; simp at h
+            | ok d5 =>
+              rw [h5] at h
+              simp only at h
+              cases h6 : insertSenses d5 l c dr with
+              | error x => rw [h6] at h; simp at h
+              | ok d6 =>
+                rw [h6] at h
+                simp only at h
+                cases h7 : insertSbs d6 sbs c with
+                | error x => rw [h7] at h; simp at h
+                | ok d7 =>
+                  rw [h7] at h
+                  simp only at h
+                  cases h8 : insertRelations d7 l c with
+                  | error x => rw [h8] at h; simp at h
+                  | ok d8 =>
+                    rw [h8] at h
+                    simp only at h
+                    have k3 := keepsYF_insertEntries l c d2 d3 h3
+                    have k4 := keepsYF_insertForms norm l c d3 d4 h4
+                    have k5 := keepsYF_insertPronsTags l c d4 d5 h5
+                    have k6 := keepsYF_insertSenses l c dr d5 d6 h6
+                    have k7 := keepsYF_insertSbs sbs c d6 d7 h7
+                    have k8 := keepsYF_insertRelations l c d7 d8 h8
+                    have k9 := keepsYF_insertDefsExamples l c d8 db' h
+                    have hsynf : db'.synsets = d2.synsets := by rw [k9.1, k8.1, k7.1, k6.1, k5.1, k4.1, k3.1]
+                    have hilif : db'.ilis = d2.ilis := by rw [k9.2, k8.2, k7.2, k6.2, k5.2, k4.2, k3.2]
+                    -- the store handed to `_insert_synsets`
+                    have hd1 : d1.synsets = db.synsets ∧ d1.ilis = db.ilis ∧ lexid = nextId (db.lexicons.map (·.rowid)) := by
+                      unfold insertLexicon at h1
+                      simp only [bind, Except.bind, pure, Except.pure] at h1
+                      split at h1
+                      · simp [throw, throwThe, MonadExcept.throw] at h1
+                      · split at h1
+                        · split at h1
+                          · simp at h1
+                          · simp only [Except.ok.injEq, Prod.mk.injEq] at h1
+                            obtain ⟨e1, e2, _⟩ := h1
+                            subst e1 e2
+                            exact ⟨rfl, rfl, rfl⟩
+                        · simp only [Except.ok.injEq, Prod.mk.injEq] at h1
+                          obtain ⟨e1, e2, _⟩ := h1
+                          subst e1 e2
+                          exact ⟨rfl, rfl, rfl⟩
+                    obtain ⟨rows, hrowsE, hrows⟩ := insertSynsets_rows d1 d2 l c h2 (by rw [hd1.2.1]; exact hn)
+                    rw [← hd1.2.2, ← hlex]
+                    unfold findSynsets
+                    simp only [List.isEmpty_nil, if_true, List.map_map]
+                    have hfilter : db'.synsets.filter (fun ss =>
+                        (match (none : Option String) with | some i => if i == "" then true else ss.id == i | none => true) &&
+                        (match (none : Option String) with | some p => if p == "" then true else ss.pos == p | none => true) &&
+                        (match (none : Option String) with
+                          | some i => if i == "" then true else (match iliIdOf db' ss.ili with | some j => j == i | none => false)
+                          | none => true) &&
+                        inLexOrAll [c.lexid] ss.lex) = rows := by
+                      rw [hsynf, hrowsE, hd1.1, List.filter_append]
+                      have e1 : db.synsets.filter (fun ss =>
+                          (match (none : Option String) with | some i => if i == "" then true else ss.id == i | none => true) &&
+                          (match (none : Option String) with | some p => if p == "" then true else ss.pos == p | none => true) &&
+                          (match (none : Option String) with
+                            | some i => if i == "" then true else (match iliIdOf db' ss.ili with | some j => j == i | none => false)
+                            | none => true) &&
+                          inLexOrAll [c.lexid] ss.lex) = [] := by
+                        rw [List.filter_eq_nil_iff]
+                        intro o ho
+                        have hne : o.lex ≠ c.lexid := by
+                          intro e
+                          have := hfkY o ho
+                          rw [e, hlex, hd1.2.2] at this
+                          exact nextId_fresh _ this
+                        simp [inLexOrAll, hne]
+                      have e2 : rows.filter (fun ss =>
+                          (match (none : Option String) with | some i => if i == "" then true else ss.id == i | none => true) &&
+                          (match (none : Option String) with | some p => if p == "" then true else ss.pos == p | none => true) &&
+                          (match (none : Option String) with
+                            | some i => if i == "" then true else (match iliIdOf db' ss.ili with | some j => j == i | none => false)
+                            | none => true) &&
+                          inLexOrAll [c.lexid] ss.lex) = rows := by
+                        rw [List.filter_eq_self]
+                        intro r hr
+                        obtain ⟨ss, _, hss⟩ : ∃ ss ∈ localSynsets l, r.lex = c.lexid := by
+                          have : ∀ {L : List Synset} {R : List RSynset}, Forall2 (fun ss r => r.id = ss.id ∧ r.lex = c.lexid ∧ (∃ p, ss.pos = some p ∧ r.pos = p) ∧
+                              iliIdOf d2 r.ili = (if (ss.ili != "" && ss.ili != "in") then some ss.ili else none)) L R → ∀ r ∈ R, ∃ ss ∈ L, r.lex = c.lexid := by
+                            intro L R hh
+                            induction hh with
+                            | nil => intro r hr; simp at hr
+                            | cons hd _ ih =>
+                              intro r hr
+                              rcases List.mem_cons.mp hr with rfl | hr
+                              · exact ⟨_, List.mem_cons_self, hd.2.1⟩
+                              · obtain ⟨x, hx, hh⟩ := ih r hr
+                                exact ⟨x, List.mem_cons_of_mem _ hx, hh⟩
+                          exact this hrows r hr
+                        simp [inLexOrAll, hss]
+                      rw [e1, e2, List.nil_append]
+                    rw [hfilter]
+                    have hres : ∀ k, iliIdOf db' k = iliIdOf d2 k := by
+                      intro k; unfold iliIdOf; rw [hilif]
+                    exact Forall2.map_eq (R := fun ss r => r.id = ss.id ∧ r.lex = c.lexid ∧ (∃ p, ss.pos = some p ∧ r.pos = p) ∧
+                        iliIdOf d2 r.ili = (if (ss.ili != "" && ss.ili != "in") then some ss.ili else none))
+                      ((fun y : SynsetData => (y.id, y.pos, y.ili)) ∘ synsetData db') docSynset
+                      (fun ss r hr => by
+                        obtain ⟨a1, _, ⟨p, hp, hpp⟩, a4⟩ := hr
+                        simp only [Function.comp, synsetData, docSynset, a1, hpp, hp, Option.getD_some, hres, a4]) hrows
+
 /-- what `synsets()` decodes: every reported synset is a synset row of a selected lexicon with that
 row's id and part of speech, and its ILI is the id of the ILI row the synset row links to -/
 theorem C01_synsets_decode (db : Db) (lexids : List Nat) (y : SynsetData)
